@@ -292,6 +292,42 @@ def log_at_function_start(sources: Dict[str, str]) -> Dict[str, str]:
     return out
 
 
+def annotate_single_assignments(sources: Dict[str, str]) -> Dict[str, str]:
+    """Turn `x = value` into `x: object = value` for every local that is bound exactly once
+    in its function (a typical typing clean-up)."""
+    out = {}
+    for p, s in sources.items():
+        tree = ast.parse(s)
+        for fn in ast.walk(tree):
+            if not isinstance(fn, (ast.FunctionDef, ast.AsyncFunctionDef)):
+                continue
+            counts: Dict[str, int] = {}
+            for n in ast.walk(fn):
+                if isinstance(n, ast.Name) and isinstance(n.ctx, (ast.Store, ast.Del)):
+                    counts[n.id] = counts.get(n.id, 0) + 1
+                elif isinstance(n, (ast.Global, ast.Nonlocal)):
+                    for nm in n.names:
+                        counts[nm] = 99
+            for a in fn.args.posonlyargs + fn.args.args + fn.args.kwonlyargs:
+                counts[a.arg] = 99
+
+            def conv(stmts):
+                for i, st in enumerate(stmts):
+                    if isinstance(st, ast.Assign) and len(st.targets) == 1 and isinstance(st.targets[0], ast.Name) and counts.get(st.targets[0].id) == 1:
+                        stmts[i] = ast.copy_location(ast.AnnAssign(target=st.targets[0], annotation=ast.Name(id="object", ctx=ast.Load()), value=st.value, simple=1), st)
+                    elif not isinstance(st, (ast.FunctionDef, ast.AsyncFunctionDef, ast.ClassDef)):
+                        for fld in ("body", "orelse", "finalbody"):
+                            sub = getattr(st, fld, None)
+                            if isinstance(sub, list) and sub and isinstance(sub[0], ast.stmt):
+                                conv(sub)
+                        for h in getattr(st, "handlers", []) or []:
+                            conv(h.body)
+            conv(fn.body)
+        ast.fix_missing_locations(tree)
+        out[p] = ast.unparse(tree)
+    return out
+
+
 def rename_all_locals(sources: Dict[str, str]) -> Dict[str, str]:
     out = {}
     for p, s in sources.items():
@@ -347,6 +383,8 @@ def _worker(args):
             overlay = reformat_all(sources)
         elif m.old == "<rename-all-locals>":
             overlay = rename_all_locals(sources)
+        elif m.old == "<annotate-single-assignments>":
+            overlay = annotate_single_assignments(sources)
         elif m.old == "<pass-between-statements>":
             overlay = pass_between_statements(sources)
         elif m.old == "<log-at-function-start>":
@@ -383,6 +421,7 @@ GENERIC = [
     M("rename every local variable in every function", "", None, "<rename-all-locals>", "", kind="equiv"),
     M("insert a pass statement between every two statements of every function", "", None, "<pass-between-statements>", "", kind="equiv"),
     M("put a logging call at the start of every function", "", None, "<log-at-function-start>", "", kind="equiv"),
+    M("annotate every local that is assigned once (x = v  ->  x: object = v)", "", None, "<annotate-single-assignments>", "", kind="equiv"),
 ]
 
 
